@@ -56,8 +56,22 @@ def _subperiods(tok: str, unit: str) -> list:
         raise _Fault("subperiods")
 
 
-def meaning(c: rs.SysCase, armed: set, v: int, tok: str, path=()):
-    """value (list of ints) of variable v at the served period token; raises _Cycle / _Fault"""
+def meaning(c: rs.SysCase, armed: set, v: int, tok: str, path=(), memo=None):
+    """value (list of ints) of variable v at the served period token; raises _Cycle / _Fault.
+    Successful values are memoised per (case, armed set): a success never depended on the path."""
+    memo = _MEMO if memo is None else memo
+    k = (id(c), frozenset(armed), v, tok)
+    if k in memo:
+        return memo[k]
+    out = _meaning(c, armed, v, tok, path)
+    memo[k] = out
+    return out
+
+
+_MEMO: dict = {}
+
+
+def _meaning(c: rs.SysCase, armed: set, v: int, tok: str, path=()):
     import datetime as dt
     from ..perutil import parse_date
     if v >= len(c.vars):
@@ -145,6 +159,7 @@ def expected_results(c: rs.SysCase) -> list:
     """what every request should return according to the statement (rule system's meaning)"""
     armed: set = set()
     out = []
+    _MEMO.clear()
     for r in c.reqs:
         if r[0] == "arm":
             armed.add(r[1]); out.append("-"); continue
@@ -177,8 +192,14 @@ def expected_results(c: rs.SysCase) -> list:
     return out
 
 
+def canon_equal(case: Case, impl_out: str, model_out: str) -> bool:
+    if rs.values_too_large(impl_out) or rs.values_too_large(model_out):
+        return True          # off the exact lattice (numeric policy): not compared
+    return impl_out == model_out
+
+
 def oracle(case: Case, out: str):
-    if not case.claimed:
+    if not case.claimed or rs.values_too_large(out):
         return None
     c: rs.SysCase = pickle.loads(bytes.fromhex(case.payload))
     if "#DTYPE:" in out:
@@ -232,7 +253,7 @@ PROP = Prop(
     pid="C01",
     lean_targets=["OFCore.Props.C01"],
     driver="ofdrv_sim",
-    generate=generate, impl=impl, oracle=oracle, nontrivial=nontrivial, corpus=corpus,
+    generate=generate, impl=impl, oracle=oracle, nontrivial=nontrivial, corpus=corpus, canon_equal=canon_equal,
     rule=("random rule systems: 3-9 variables over person + household, value types int/float/bool (+ enum/date as inputs and defaults), "
           "definition periods month/year/day/eternity, 0-3 dated formulas each (formula, formula_YYYY_MM_DD), optional end, neutralised "
           "variables, expression trees of depth <= 3 over add/sub/min/max/comparisons/where/scaling/negation, sums over members, projections, "
